@@ -291,10 +291,14 @@ Inductive cop :=
 | CSets              (* hwloc_topology_get_{allowed,complete,topology}_{cpuset,nodeset} *)
 | CBitmap            (* bitmap queries on the topology's sets *)
 | CExportXml         (* hwloc_topology_export_xmlbuffer (+ hwloc_free_xmlbuffer) *)
-| CExportSynth (warns : bool).
+| CExportSynth (warns : bool)
     (* hwloc_topology_export_synthetic; warns = HWLOC_SYNTHETIC_VERBOSE is set and the topology has a
        memory-side cache with several memory children (a tree-level fact, input of the step): the
        export then goes through `if (!warned) { fprintf(..); warned = 1; }` *)
+| CDefaultNodeset    (* hwloc_topology_get_default_nodeset: works on a private COPY of the NUMA level array *)
+| CHelpers.          (* the consulting helpers of helper.h / inlines.h / hwloc.h: covering / inside / below / closest
+                        objects, cpuset<->nodeset, distrib, infos, support, type predicates, PCI/OS device lookups,
+                        (hwloc_distances_get_by_name + transform belong to CDistGet) *)
 
 Definition uses_statics (c : cop) : bool := match c with CExportXml | CExportSynth true => true | _ => false end.
 
@@ -315,7 +319,7 @@ Fixpoint replace_nth {A} (n : nat) (x : A) (l : list A) : list A :=
 (* a consulting call on LOADED topology number t *)
 Definition cons_run (t : nat) (tp : topo) (g : glob) (c : cop) : topo * glob * result * list ev :=
   match c with
-  | CTraverse | CTypePrint | CLocalNodes | CSets | CBitmap | CMaMeta | CExportSynth false =>
+  | CTraverse | CTypePrint | CLocalNodes | CSets | CBitmap | CMaMeta | CExportSynth false | CDefaultNodeset | CHelpers =>
       (tp, g, [], [Rd (LTree t)])
   | CExportSynth true =>
       if mem_static SSynthWarned (g_checked g) then (tp, g, [], [Rd (LTree t); Rd (LStChecked SSynthWarned)])
